@@ -45,7 +45,14 @@ unsigned char nondet_uchar(void);
 _Bool nondet_bool(void);
 void *nondet_ptr(void);
 #define VIN(type, name)		name = (type) nondet_ulong()
+#ifdef VERIF_COVER_PASS
+/* the cover pass decides reachability witnesses only: the postconditions were decided by the main pass of the same obligation
+ * (assertions do not constrain paths in CBMC, so dropping them changes no witness; it keeps the incremental solver from
+ * re-proving them after each satisfied witness) */
+#define VERIF_ASSERT(c, msg)	((void) 0)
+#else
 #define VERIF_ASSERT(c, msg)	__CPROVER_assert(c, msg)
+#endif
 /* harness-level precondition on the symbolic inputs (part of the stated contract, not an added assumption) */
 #define VERIF_REQUIRE(c)	__CPROVER_assume(c) /*A:harness-precondition*/
 #ifdef VERIF_COVER_PASS
